@@ -246,7 +246,7 @@ func genGetConc(seed uint64) lib.Case {
 				if len(call.Snap) > 0 {
 					fails = append(fails, fmt.Sprintf("g%d op %d: panic", g, i))
 				}
-				ccs = append(ccs, fmt.Sprintf("(%s, %s, %s, (%d, %d), None)", coqKind(op.Base), coqExtra(op.Extra), coqNs(op.Addrs), op.Start, op.Limit))
+				ccs = append(ccs, fmt.Sprintf("(%s, %s, %s, %s, (%d, %d), None)", coqKind(op.Base), coqExtra(op.Extra), b2c(op.Traces), coqNs(op.Addrs), op.Start, op.Limit))
 				continue
 			}
 			rk := reuseKey{op.Base, op.Start, op.Limit}
@@ -254,14 +254,14 @@ func genGetConc(seed uint64) lib.Case {
 			if plans[rk] == nil {
 				plans[rk] = map[string]bool{}
 			}
-			plans[rk][op.Extra+fmt.Sprint(op.Addrs)] = true
+			plans[rk][op.Extra+fmt.Sprint(op.Addrs, op.Traces)] = true
 			if len(plans[rk]) > 1 && op.Base != "" {
 				mixed = true
 			}
-			truth := cachesim.Truth(chain, op.Base, op.Extra, op.Addrs, op.Start, op.Limit)
+			truth := cachesim.TruthT(chain, op.Base, op.Extra, op.Traces, op.Addrs, op.Start, op.Limit)
 			later := cachesim.DumpBlocks(call.bs, false) // everybody has finished
 			for when, d := range map[string][]cachesim.DBlock{"at return": call.Snap, "at the end": later} {
-				if v := cachesim.View(d, op.Extra, op.Addrs); !cachesim.EqualDump(v, truth) {
+				if v := cachesim.ViewT(d, op.Extra, op.Traces, op.Addrs); !cachesim.EqualDump(v, truth) {
 					fails = append(fails, fmt.Sprintf("g%d op %d %s: view %v differs from the chain %v", g, i, when, v, truth))
 				}
 				for _, b := range d {
@@ -273,7 +273,7 @@ func genGetConc(seed uint64) lib.Case {
 					fails = append(fails, fmt.Sprintf("g%d op %d %s: %s", g, i, when, strings.Join(p, ", ")))
 				}
 			}
-			ccs = append(ccs, fmt.Sprintf("(%s, %s, %s, (%d, %d), Some %s)", coqKind(op.Base), coqExtra(op.Extra), coqNs(op.Addrs),
+			ccs = append(ccs, fmt.Sprintf("(%s, %s, %s, %s, (%d, %d), Some %s)", coqKind(op.Base), coqExtra(op.Extra), b2c(op.Traces), coqNs(op.Addrs),
 				op.Start, op.Limit, cachesim.CoqBlocks(later)))
 		}
 	}
